@@ -763,6 +763,10 @@ def _serve_socket_threaded(
     state_lock = threading.Lock()
     conn_count = 0
     timer: threading.Timer | None = None
+    # Bumped whenever the armed timer is cancelled or replaced.  ``Timer.cancel()``
+    # cannot stop a callback whose wait already elapsed; the generation lets such
+    # a stale callback recognise that it no longer speaks for the current idle period.
+    timer_gen = 0
     shutdown_requested = False
 
     # Linux does not wake a blocked accept() when another thread closes the
@@ -770,24 +774,30 @@ def _serve_socket_threaded(
     # Drive accept on a short timeout and check a shutdown flag instead.
     sock.settimeout(0.5)
 
-    def _close_listener_if_idle() -> None:
+    def _close_listener_if_idle(gen: int) -> None:
         nonlocal timer, shutdown_requested
         with state_lock:
+            if gen != timer_gen:
+                # Cancelled or superseded after the wait elapsed: a connection
+                # was accepted (or a new idle period started) in the meantime.
+                return
             timer = None
             if conn_count != 0:
                 return
             shutdown_requested = True
 
     def _arm_timer_locked(seconds: float) -> None:
-        nonlocal timer
+        nonlocal timer, timer_gen
         if timer is not None:
             timer.cancel()
-        timer = threading.Timer(seconds, _close_listener_if_idle)
+        timer_gen += 1
+        timer = threading.Timer(seconds, _close_listener_if_idle, args=(timer_gen,))
         timer.daemon = True
         timer.start()
 
     def _cancel_timer_locked() -> None:
-        nonlocal timer
+        nonlocal timer, timer_gen
+        timer_gen += 1
         if timer is not None:
             timer.cancel()
             timer = None
@@ -830,6 +840,9 @@ def _serve_socket_threaded(
             with state_lock:
                 conn_count += 1
                 _cancel_timer_locked()
+                # The idle timer may have fired just before this connection was
+                # accepted; the worker is no longer idle, so withdraw the request.
+                shutdown_requested = False
             t = threading.Thread(
                 target=_handle,
                 args=(conn,),
